@@ -303,6 +303,10 @@ def rand_schema(rng, names=None, depth=0, maxdepth=2, width=5, allow=("int", "fl
                 if rng.random() < 0.5:
                     flags |= DROP
             d = rand_default(rng, ty, is_list)
+            if flags & DEPRECATED and is_list:
+                # a parsed default of a deprecated option is reported (and dropped) while the *default* is
+                # parsed, i.e. inside cfg_init / section creation: not modelled, not generated
+                d = None
             if with_callbacks:
                 if rng.random() < 0.25 and not (is_list and d):
                     cbs += "p"
@@ -321,3 +325,20 @@ def all_opts(opts, prefix=""):
         yield prefix + o.name, o
         if o.ty == "sec":
             yield from all_opts(o.subs, prefix + o.name + "|")
+
+
+# ------------------------------------------------------------------ scratch file trees
+import atexit
+import shutil
+import tempfile
+
+_FSROOT = None
+
+
+def fsroot():
+    """per-run scratch directory for FILE/CWD operations (outside /repo and /verif), removed at exit"""
+    global _FSROOT
+    if _FSROOT is None:
+        _FSROOT = tempfile.mkdtemp(prefix="verif_fs_")
+        atexit.register(shutil.rmtree, _FSROOT, True)
+    return _FSROOT
